@@ -21,7 +21,7 @@ ARG = {"Const": "AConst", "RawErr": "ARawErr", "ClientAddr": "AClientAddr", "Pla
        "Digest": "ADigest", "InternalErr": "AInternalErr"}
 ERRNO_TEXT = {11: "resource temporarily unavailable", 22: "invalid argument", 32: "broken pipe",
               101: "network is unreachable", 103: "software caused connection abort", 104: "connection reset by peer",
-              105: "no buffer space available", 107: "transport endpoint is not connected", 110: "connection timed out",
+              105: "no buffer space available", 5: "input/output error", 100: "network is down", 107: "transport endpoint is not connected", 110: "connection timed out",
               111: "connection refused", 113: "no route to host", 24: "too many open files"}
 SENT = {"rst": 1, "timeout": 2, "refused": 3, "unreachable": 4, "aborted": 5, "closed": 6}
 
@@ -199,6 +199,17 @@ def shapes(ctx):
     return out
 
 
+def nested_shapes():
+    """layered connections: an operation error whose Err is the socket's own operation error.  2 and 3 levels,
+    endpoints on the inner level only and on both, for errnos outside the sanitiser's list and for two inside it"""
+    out = []
+    for n in (5, 105, 100, 101, 22, 107, 104, 110):
+        inner = op(sysx(leaf("errno:%d" % n)))                      # carries both endpoints
+        out += [op(inner, addr=False), op(inner), op(op(inner, addr=False), addr=False), op(op(inner), addr=False),
+                wrap(op(inner, addr=False), addr=False), op(op(leaf("errno:%d" % n)), addr=False)]
+    return out
+
+
 # fixed-width components: no address is a textual prefix of another one
 UNSET = "\x00unset"
 ENV_VALUES = [UNSET, "", "false", "FALSE", "False", "0", "f", "F", "no", "off", "n", "disabled", "none", "false ", " false", "false\r",
@@ -241,9 +252,13 @@ def gen_cases(ctx):
         return c
 
     sh = shapes(ctx)
+    nested = nested_shapes()
     data = ["6162", "636465"]
-    for e in sh:
-        if quick and rng.random() < 0.35:
+    for e in sh + nested:
+        if e in nested:
+            # every relay I/O call on the client connection, plus one site of each other kind
+            sel = [7, 8, 9, 6] + ([0, 5, 2] if not quick else [rng.choice([0, 1, 3, 4, 5, 2])])
+        elif quick and rng.random() < 0.35:
             sel = rng.sample(range(12), 5)
         else:
             sel = range(12)
@@ -407,7 +422,7 @@ def run(ctx):
         "scripted net.Conn / GeoIP / transport and log capture in harness/inpkg/c17 (trusted)",
     ]
     ctx.cov["rule"] = ("a dynamic case is (call site, error shape, client address family); non-trivial if hash-distinct; classes: "
-                       "every error shape (12 errnos x 7 wrappings, 7 sentinels/texts x 5 wrappings = 119) x 12 injection points "
+                       "every error shape (12 errnos x 7 wrappings, 7 sentinels/texts x 5 wrappings = 119, plus 48 nested operation errors: 2-3 levels, endpoints inner only / on both, 8 errnos) x 12 injection points "
                        "(discard paths, read loop, both SetDeadline sites, relay read/write/close, GeoIP in handler and ingest), "
                        "dial failure, PROXY header, blocklisted covert, transport error path, positive controls with LOG_CLIENT_IP; "
                        "static cases are the regenerated log sites")
